@@ -276,6 +276,8 @@ def step (s : St) (t : Tid) (e : Ev) : Option St :=
   | .wExc, .exc => some (s.setPc t .idle)
   -- ---- end of run ------------------------------------------------------------------------------
   | .idle, .final v => if s.enabled = true → v = s.val then some s else none
+  -- user code run by the CALL itself (building a by-value parameter from an lvalue) throws before any lock operation
+  | .wCalled _, .uth => some (s.setPc t .wExc)
   | _, _ => none
 
 def run (enabled capable : Bool) (es : List (Tid × Ev)) : Option St := runFrom step (init enabled capable) es
